@@ -49,6 +49,8 @@ def cost(o):
         return (17 + 4 * max(o.get("v", 1), 1)) ** 2 if (o.get("chk") and not o.get("err")) else 40 + len(o.get("text", ())) // 4
     if o["op"] == "build":
         return (17 + 4 * o["v"]) ** 2
+    if o["op"] == "dmg":
+        return (17 + 4 * max(o.get("v", 1), 1)) ** 2 // 2 + 12 * sum(len(s["flip"]) + 4 for s in o.get("sets", ()))
     return 30
 
 
@@ -75,6 +77,7 @@ def validate_balanced(ctx, module, obs, timeout=2400, nshards=None):
 
 
 FLAGS = {"enc": ["outcome(version/mode/level/refusal)", "mask", "matrix==reference", "decode(matrix)==text", "read(image)==text"],
+         "dmg": ["symbol as requested", "fault scripts: within capacity => decoded text unchanged"],
          "encn": ["version choice / refusal"],
          "tables": ["totals", "alignment centres", "block counts", "block groups", "count widths"],
          "fmt": ["format BCH"], "ver": ["version BCH"], "build": ["placement"]}
@@ -98,13 +101,13 @@ def judge(ctx, inputs, label):
     for gi, ent in bad:
         o = obs[gi]
         failed = [FLAGS[o["op"]][k] for k, f in enumerate(ent[2]) if f == 0]
-        ev = {k: v for k, v in o.items() if k not in ("rows",)}
+        ev = {k: v for k, v in o.items() if k not in ("rows", "sets")}
         ev["failed"] = failed
         vlib.reject(ctx, ev, "%s: %s rejected by Trace_QR: %s (v=%s ec=%s mask=%s mode=%s len=%s err=%s)" % (
             label, o["op"], ", ".join(failed), o.get("v"), o.get("ec"), o.get("mask"), o.get("mode"), len(o.get("text", ())), o.get("err")),
             replay_events=[inputs[gi]])
     mid = obs[len(obs) // 2]
-    ctx.sample(dict(kind=label, event={k: (v if not isinstance(v, list) or len(v) < 24 else v[:24] + ["..."]) for k, v in mid.items() if k != "rows"}))
+    ctx.sample(dict(kind=label, event={k: (v if not isinstance(v, list) or len(v) < 24 else v[:24] + ["..."]) for k, v in mid.items() if k not in ("rows", "sets")}))
     return obs
 
 
